@@ -15,15 +15,17 @@ two- or three-token rule fires and `merge` finds no phrase (`foldTwo_benign`, `f
 ≤ 5, and **no such key is in the blacklist** (`benign_fingerprints_absent`, the whole regenerated table
 at once); (4) no `'`/`"`, no `#`/`--` comment counted, so the other four readings are not tried.
 
-**Also proved (`benign_items_not_sqli`, `email_not_sqli`, `decimal_not_sqli`): the e-mail-like and decimal families.**
+**Also proved (`benign_items_not_sqli`, `email_not_sqli`, `email2_not_sqli`, `decimal_not_sqli`): both e-mail-like
+families and the decimal family.** A dotted identifier `w1.w2` whose first part is no keyword is lexed as one bareword
+(`parseWord_dotted`: the keyword-split loop of `parseWord` finds nothing).
 A decimal number `digits.digits` is lexed as one number (`parseNumber_dec`: the fraction branch of `parseNumber`). A word may be followed
 directly by `@` and a dotted identifier (`name@host.tld`), and such variables may stand alone: `@host.tld` is
 lexed as one variable token (`parseVar_good`), variables are inert in `fold` like barewords and numbers (no rule
 fires without an operator, comma or parenthesis between them), and **no key over `{n,1,v}` is in the blacklist**
 (the table fact now covers the three classes).
 
-Not theorems (sampled by the oracle and compared with the model): the `a.b@c.d` and punctuated-sentence
-families of the property (they involve the `.`-split of `parseWord` and folding over `,` `!` `?` `:` tokens). -/
+Not theorems (sampled by the oracle and compared with the model): the punctuated-sentence families of the
+property (they involve folding over `,` `.` `!` `?` `:` tokens, where rules do fire). -/
 namespace LibInj.Properties.C14
 open LibInj LibInj.Tables LibInj.Sqli
 
@@ -64,10 +66,12 @@ theorem benign_not_sqli : C14_statement := by
 def Item (x : Bytes) : Prop :=
   (Word x ∧ NotKeywordLike x) ∨ Num x ∨
   (∃ w vw, x = w ++ 64 :: vw ∧ Word w ∧ NotKeywordLike w ∧ VarBody vw) ∨ (∃ vw, x = 64 :: vw ∧ VarBody vw) ∨
-  (∃ d1 d2, x = d1 ++ 46 :: d2 ∧ Num d1 ∧ Num d2)
+  (∃ d1 d2, x = d1 ++ 46 :: d2 ∧ Num d1 ∧ Num d2) ∨
+  GoodDotted x ∨ (∃ w vw, x = w ++ 64 :: vw ∧ GoodDotted w ∧ VarBody vw)
 
 theorem txt_item (x r : Bytes) (hx : Item x) (hsep : Sep r) (hr : Txt r) : Txt (x ++ r) := by
-  rcases hx with ⟨hword, hk1, hk2⟩ | hnum | ⟨w, vw, rfl, hword, ⟨hk1, hk2⟩, hv⟩ | ⟨vw, rfl, hv⟩ | ⟨d1, d2, rfl, h1, h2⟩
+  rcases hx with ⟨hword, hk1, hk2⟩ | hnum | ⟨w, vw, rfl, hword, ⟨hk1, hk2⟩, hv⟩ | ⟨vw, rfl, hv⟩ | ⟨d1, d2, rfl, h1, h2⟩ | hdot |
+    ⟨w, vw, rfl, hdot, hv⟩
   · exact Txt.word (Or.inl ⟨hword, fun _ => hk1, fun _ => hk2⟩) hsep hr
   · exact Txt.word (Or.inr hnum) hsep hr
   · have := Txt.wordAt (w := w) ⟨hword, fun _ => hk1, fun _ => hk2⟩ (Txt.var hv hsep hr)
@@ -75,6 +79,9 @@ theorem txt_item (x r : Bytes) (hx : Item x) (hsep : Sep r) (hr : Txt r) : Txt (
   · have := Txt.var hv hsep hr
     simpa using this
   · exact Txt.dec ⟨d1, d2, rfl, h1, h2⟩ hsep hr
+  · exact Txt.dotted hdot hsep hr
+  · have := Txt.dottedAt (w := w) hdot (Txt.var hv hsep hr)
+    simpa [List.append_assoc] using this
 
 theorem txt_items : ∀ (xs : List Bytes), (∀ x ∈ xs, Item x) → Txt (unwords xs)
   | [], _ => Txt.nil
@@ -109,12 +116,34 @@ theorem email_not_sqli (w1 w2 w3 : Bytes) (h1 : Word w1) (hk : NotKeywordLike w1
     exact Or.inr (Or.inr (Or.inl ⟨w1, _, rfl, h1, hk, hv⟩)))
   simpa [unwords] using this
 
+/-- the second e-mail shape of the property: `w1.w2@w3.w4`, where `w1` is no keyword and `w1.w2` is no key and starts no phrase -/
+theorem email2_not_sqli (w1 w2 w3 w4 : Bytes) (h1 : Word w1) (h2 : Word w2) (h3 : Word w3) (h4 : Word w4)
+    (hk1 : searchKeyword w1 = 0 ∨ searchKeyword w1 = 110) (hk : NotKeywordLike (w1 ++ 46 :: w2)) :
+    isSQLi ((w1 ++ 46 :: w2) ++ 64 :: (w3 ++ 46 :: w4)) = .ok (false, []) := by
+  have hv : VarBody (w3 ++ 46 :: w4) := by
+    obtain ⟨c, t, rfl, hc, ht⟩ := h3
+    obtain ⟨c4, t4, rfl, hc4, ht4⟩ := h4
+    refine ⟨c, t ++ 46 :: c4 :: t4, rfl, hc, ?_⟩
+    simp only [List.all_append, List.all_cons, Bool.and_eq_true]
+    refine ⟨?_, by decide, ?_, ?_⟩
+    · exact List.all_eq_true.mpr (fun x hx => by simp [isVarBodyByte, List.all_eq_true.mp ht x hx])
+    · simp [isVarBodyByte, isWordByteB, hc4]
+    · exact List.all_eq_true.mpr (fun x hx => by simp [isVarBodyByte, List.all_eq_true.mp ht4 x hx])
+  have hd : GoodDotted (w1 ++ 46 :: w2) := by
+    obtain ⟨c2, t2, hw2, hc2, ht2⟩ := h2
+    refine ⟨w1, w2, rfl, h1, by rw [hw2]; simp, by rw [hw2]; simp [isWordByteB, hc2, ht2], hk1, fun _ => hk.1, fun _ => hk.2⟩
+  have := benign_items_not_sqli [(w1 ++ 46 :: w2) ++ 64 :: (w3 ++ 46 :: w4)] (fun x hx => by
+    have : x = (w1 ++ 46 :: w2) ++ 64 :: (w3 ++ 46 :: w4) := by simpa using hx
+    subst this
+    exact Or.inr (Or.inr (Or.inr (Or.inr (Or.inr (Or.inr ⟨_, _, rfl, hd, hv⟩))))))
+  simpa [unwords] using this
+
 /-- the decimal shape of the property: `d1.d2` -/
 theorem decimal_not_sqli (d1 d2 : Bytes) (h1 : Num d1) (h2 : Num d2) : isSQLi (d1 ++ 46 :: d2) = .ok (false, []) := by
   have := benign_items_not_sqli [d1 ++ 46 :: d2] (fun x hx => by
     have : x = d1 ++ 46 :: d2 := by simpa using hx
     subst this
-    exact Or.inr (Or.inr (Or.inr (Or.inr ⟨d1, d2, rfl, h1, h2⟩))))
+    exact Or.inr (Or.inr (Or.inr (Or.inr (Or.inl ⟨d1, d2, rfl, h1, h2⟩)))))
   simpa [unwords] using this
 
 /-- non-vacuity: the conclusion on `joe@example.com 42` is what the kernel computes -/
